@@ -1,7 +1,15 @@
 package main
 
-import "github.com/go-gts/gts/internal/verifsim/core"
+import (
+	"github.com/go-gts/gts/internal/verifsim/core"
+	"github.com/go-gts/gts/internal/verifsim/e2"
+)
 
 func main() {
-	core.Main("e2", map[string]core.PropEngine{})
+	e2.SnapshotRegistries()
+	core.Main("e2", map[string]core.PropEngine{
+		"C01": e2.C01{},
+		"C07": e2.C07{},
+		"C17": e2.C17{},
+	})
 }
